@@ -126,6 +126,8 @@ package engine
 //@   assigns *, ghost.sprintSteps
 //@   ensures_trusted [no_engine_error] !typeis(result, *Error)
 //@   ensures [never_left_active] isnil(result) ==> (s.status == flows.SessionStatusWaiting || s.status == flows.SessionStatusCompleted || s.status == flows.SessionStatusFailed)
+// C05: reaching the step limit is never reported as a Go error (it fails the run, and through it the session)
+//@   checks [limit_is_not_an_error] numNewSteps > s.engine.(*engine).options.MaxStepsPerSprint ==> isnil(result)
 //@   ensures [step_limit] ghost.sprintSteps - old(ghost.sprintSteps) <= (old(s.engine.(*engine).options.MaxStepsPerSprint) > 0 ? old(s.engine.(*engine).options.MaxStepsPerSprint) : 0)
 //@ loop 1
 //@   invariant s.engine == old(s.engine) && EngRep(s.engine) && s.engine.(*engine).options == old(s.engine.(*engine).options) && s.engine.(*engine).options.MaxStepsPerSprint == old(s.engine.(*engine).options.MaxStepsPerSprint)
